@@ -1573,6 +1573,12 @@ func (c *Ctx) RuleFsSame(commands []string) *Result {
 							eq = call
 						}
 					}
+					// the bytes of the file as they passed by: a buffer filled by io.TeeReader(file, &buf), file
+					// opened from the written path (what was read is the whole file: the reader behind the tee runs to
+					// the end of the input or ends the process, which is C17's business)
+					if teeCopyOf(other, w.pathV) {
+						eq = call
+					}
 				})
 				if eq == nil {
 					// the check may live in a helper that is handed the path and the data and whose verdict is returned as it is
@@ -1936,4 +1942,40 @@ func (c *Ctx) callersReadFirst(fn *ssa.Function, pathV ssa.Value) bool {
 		}
 	}
 	return n > 0
+}
+
+// teeCopyOf: v is buf.Bytes() (or buf.String()) of a bytes.Buffer that is the copy side of an
+// io.TeeReader whose source is the file opened from pathV.
+func teeCopyOf(v ssa.Value, pathV ssa.Value) bool {
+	call, ok := stripConv(v).(*ssa.Call)
+	if !ok || len(call.Call.Args) != 1 {
+		return false
+	}
+	f := staticCallee(&call.Call)
+	if !isMeth(f, "bytes", "Buffer", "Bytes") && !isMeth(f, "bytes", "Buffer", "String") {
+		return false
+	}
+	buf := call.Call.Args[0]
+	for _, r := range referrers(buf) {
+		mi, ok := r.(*ssa.MakeInterface)
+		if !ok {
+			continue
+		}
+		for _, rr := range referrers(mi) {
+			tee, ok := rr.(*ssa.Call)
+			if !ok || !isFn(staticCallee(&tee.Call), "io", "TeeReader") || len(tee.Call.Args) != 2 || tee.Call.Args[1] != ssa.Value(mi) {
+				continue
+			}
+			src := stripConv(tee.Call.Args[0])
+			if ex, ok := src.(*ssa.Extract); ok && ex.Index == 0 {
+				if oc, ok := ex.Tuple.(*ssa.Call); ok {
+					of := staticCallee(&oc.Call)
+					if (isFn(of, "os", "Open") || isFn(of, "os", "OpenFile")) && len(oc.Call.Args) > 0 && oc.Call.Args[0] == pathV {
+						return true
+					}
+				}
+			}
+		}
+	}
+	return false
 }
